@@ -18,6 +18,18 @@ func VP_C08_Codec() {
 	c := vpCodecs()[vp.Param("codec")]
 	n := vp.Param("n")
 	x := vp.Bytes("x", n)
+	if vp.Param("fill") == 1 {
+		// long structured inputs: one arbitrary byte repeated n times (runs of zeros, 0xFF ...), the last "tail" bytes
+		// independent - reaches the lengths where run-dependent encodings (ascii85 'z' groups, basE91 14-bit groups) and
+		// buffer-size formulas matter, which the fully symbolic instances (n <= 16) cannot
+		f := vp.Byte("fill")
+		if fv := vp.Param("fillval"); fv > 0 { // a concrete fill value (fillval-1): for basE91, whose arithmetic makes a symbolic fill cost minutes
+			f = byte(fv - 1)
+		}
+		for i := 0; i < n-vp.Param("tail"); i++ {
+			x[i] = f
+		}
+	}
 	orig := make([]byte, n)
 	copy(orig, x)
 	e := c.Encode(x)
